@@ -29,3 +29,43 @@ def check_C17(tier, seed):
 def replay(prop, path):
     from . import replayer
     return replayer.replay(prop, path)
+
+
+def _conc(prop, family, tier, seed, props, mode="th", level="model_checking"):
+    from . import conccheck
+    v = Verdict(prop, tier, seed, level)
+    results = conccheck.run_family(family, tier, mode)
+    inst_kw = conccheck.OBJ_INST if family == "C07" else conccheck.META_INST
+    viol, r, n_out, n_states = conccheck.judge(results, inst_kw)
+    conccheck.report(v, results, viol, props, r, n_out, n_states)
+    v.coverage["checker_cmd"] = "harness.conc explorer (real code, all interleavings) ; tlc TraceLin"
+    v.assumptions += [
+        "scheduling points: every operation on a shared path class and every lock/condition operation; "
+        "operations on a thread's own tmp file and runs of directory stat/mkdir do not yield",
+        "2 threads exhaustive per scenario (state-cached DFS); 3 threads preemption bound 2 (thorough)",
+        "CPython GIL: an un-yielded stretch of a managed thread is atomic w.r.t. other managed threads"]
+    return v
+
+
+def check_C07(tier, seed):
+    return _conc("C07", "C07", tier, seed, {"C07"}).finish()
+
+
+def check_C12(tier, seed):
+    return _conc("C12", "C12", tier, seed, {"C12"}).finish()
+
+
+def check_C08(tier, seed):
+    """Termination and lock hygiene over every execution explored for C07 and C12
+    (the fault-injection part rides on the C13 enumeration, see check_C13)."""
+    from . import conccheck
+    v = Verdict("C08", tier, seed, "model_checking")
+    for family, inst_kw in (("C07", conccheck.OBJ_INST), ("C12", conccheck.META_INST)):
+        results = conccheck.run_family(family, tier)
+        viol, r, n_out, n_states = conccheck.judge(results, inst_kw)
+        conccheck.report(v, results, viol, {"C08"}, r, n_out, n_states)
+    v.coverage["checker_cmd"] = "harness.conc explorer ; tlc TraceLin (I_NoDeadlock, I_NothingLocked)"
+    v.assumptions.append("deadlock = no runnable managed thread while some call unfinished; "
+                         "after every distinct terminal outcome follow-up calls on every identifier "
+                         "involved must complete without blocking")
+    return v.finish()
